@@ -161,6 +161,11 @@ OversizeOnlyIfTooBig == [][\A i \in 1..Len(results') : (i > Len(results) /\ resu
                               => (rcall[2] >= 0 /\ msgs[ri] > rcall[2])]_vars
 WithinLimit == [][\A i \in 1..Len(results') : (i > Len(results) /\ results'[i][2] = "ok" /\ rcall[1] = "bytes"
                                                 /\ rcall[2] >= 0) => msgs[ri] <= rcall[2]]_vars
+(* recv_bytes_into: a message is stored only if it fits the room behind the offset; otherwise the
+   call fails with BufferTooShort (the buffer untouched, the message in the exception) *)
+IntoExact == [][\A i \in 1..Len(results') :
+                  (i > Len(results) /\ rcall # <<>> /\ rcall[1] = "into" /\ results'[i][2] \in {"ok", "tooshort"})
+                     => (results'[i][2] = "tooshort" <=> rcall[2] < rcall[3] + msgs[ri])]_vars
 (* argument errors and unusable handles are rejected before any I/O *)
 ArgErrorsBeforeIO == [][act'.name \in {"SendInvalid", "RecvInvalid"} =>
                            (si' = si /\ soff' = soff /\ ri' = ri /\ roff' = roff)]_vars
